@@ -1,4 +1,4 @@
-//! The three element kinds of the protocol: `Tracked` (t), `u8` (b) and `Zst` (z).
+//! The element kinds of the protocol: `Tracked` (t), `Plain` (p), `u8` (b), `Zst` (z), `()` (u).
 
 use crate::ledger::*;
 use crate::ops::{self, Fam, OpRes};
@@ -12,6 +12,8 @@ pub trait Elem:
     Sized + Clone + PartialEq + Eq + PartialOrd + Ord + Hash + fmt::Debug + 'static
 {
     const KIND: u8;
+    /// elements of this kind have an identity (`id` field, live set, zombie detection)
+    const HAS_ID: bool = false;
     /// element created by the caller and handed to the crate (`G` event)
     fn given(val: u32) -> Self;
     /// element created by a closure / iterator (val = id)
@@ -71,6 +73,10 @@ pub trait Elem:
             false
         }
     }
+    /// `fill_all` (kind u only): a completely full buffer, built in O(1)
+    fn full_buffer<const N: usize>() -> Option<CircularBuffer<N, Self>> {
+        None
+    }
     /// byte I/O (`write read fill_buf consume flush`)
     fn io_op<const N: usize>(
         _buf: &mut CircularBuffer<N, Self>,
@@ -83,7 +89,7 @@ pub trait Elem:
 }
 
 // ---------------------------------------------------------------------------------------------
-// Tracked
+// Tracked (t) and Plain (p): elements with an identity; only Tracked has a destructor
 // ---------------------------------------------------------------------------------------------
 
 #[repr(C)]
@@ -92,16 +98,11 @@ pub struct Tracked {
     pub val: u32,
 }
 
-impl Tracked {
-    #[inline]
-    fn make(val: Option<u32>) -> Tracked {
-        let id = fresh_id();
-        set_live(id);
-        Tracked {
-            id,
-            val: val.unwrap_or(id),
-        }
-    }
+/// like `Tracked` but without a `Drop` impl: `mem::needs_drop::<Plain>()` is false
+#[repr(C)]
+pub struct Plain {
+    pub id: u32,
+    pub val: u32,
 }
 
 impl Drop for Tracked {
@@ -130,220 +131,191 @@ impl Drop for Tracked {
     }
 }
 
-impl Clone for Tracked {
-    fn clone(&self) -> Self {
-        let prev = count_off();
-        if silent() {
-            let t = Tracked::make(Some(self.val));
-            count_restore(prev);
-            return t;
-        }
-        if !is_live(self.id) {
-            ev_zombie(self.id, "clone");
-        }
-        if tick(F_CLONE) {
-            panic!("INJECTED:clone");
-        }
-        let t = Tracked::make(Some(self.val));
-        ev_clone(t.id, self.id);
-        count_restore(prev);
-        t
-    }
-}
-
-impl PartialEq for Tracked {
-    fn eq(&self, other: &Self) -> bool {
-        let prev = count_off();
-        if !silent() {
-            if !is_live(self.id) {
-                ev_zombie(self.id, "eq");
-            }
-            if !is_live(other.id) {
-                ev_zombie(other.id, "eq");
-            }
-            ev_cmp(self.id, other.id);
-            if tick(F_EQ) {
-                panic!("INJECTED:eq");
-            }
-        }
-        count_restore(prev);
-        self.val == other.val
-    }
-}
-
-impl Eq for Tracked {}
-
-impl Tracked {
-    #[inline]
-    fn compare(&self, other: &Self) -> Ordering {
-        let prev = count_off();
-        if !silent() {
-            if !is_live(self.id) {
-                ev_zombie(self.id, "cmp");
-            }
-            if !is_live(other.id) {
-                ev_zombie(other.id, "cmp");
-            }
-            ev_cmp(self.id, other.id);
-        }
-        count_restore(prev);
-        self.val.cmp(&other.val)
-    }
-}
-
-impl PartialOrd for Tracked {
-    fn partial_cmp(&self, other: &Self) -> Option<Ordering> {
-        Some(self.compare(other))
-    }
-}
-
-impl Ord for Tracked {
-    fn cmp(&self, other: &Self) -> Ordering {
-        self.compare(other)
-    }
-}
-
-impl Hash for Tracked {
-    fn hash<H: Hasher>(&self, state: &mut H) {
-        let prev = count_off();
-        if !silent() {
-            if !is_live(self.id) {
-                ev_zombie(self.id, "hash");
-            }
-            ev_hash(self.id);
-        }
-        count_restore(prev);
-        state.write_u32(self.val);
-    }
-}
-
-impl fmt::Debug for Tracked {
-    fn fmt(&self, f: &mut fmt::Formatter<'_>) -> fmt::Result {
-        let prev = count_off();
-        if !silent() {
-            if !is_live(self.id) {
-                ev_zombie(self.id, "fmt");
-            }
-            ev_fmt(self.id);
-        }
-        let r = write!(f, "T{}:{}", self.id, self.val);
-        count_restore(prev);
-        r
-    }
-}
-
-impl Elem for Tracked {
-    const KIND: u8 = b't';
-
-    fn given(val: u32) -> Self {
-        let t = Tracked::make(Some(val));
-        ev_given(t.id);
-        t
-    }
-    fn produced() -> Self {
-        let t = Tracked::make(None);
-        ev_given(t.id);
-        t
-    }
-    fn silent(val: u32) -> Self {
-        Tracked::make(Some(val))
-    }
-    #[inline]
-    unsafe fn raw(p: *const Self) -> (u32, u32) {
-        let q = p as *const u32;
-        (q.read_volatile(), q.add(1).read_volatile())
-    }
-    #[inline]
-    fn bump(&mut self) {
-        self.val = self.val.wrapping_add(1000);
-    }
-    fn on_return(&self) {
-        if !is_live(self.id) {
-            ev_zombie(self.id, "ret");
-        }
-        set_held(self.id);
-    }
-    unsafe fn write_decoy(p: *mut Self, slot: usize) {
-        std::ptr::write(
-            p,
-            Tracked {
-                id: 900000u32.wrapping_add(slot as u32),
-                val: 7,
-            },
-        );
-    }
-
-    fn from_array<const N: usize>(vals: &[u32]) -> Option<Result<CircularBuffer<N, Self>, ()>> {
-        if N > 5 {
-            return None;
-        }
-        macro_rules! go {
-            ($($m:literal)*) => {
-                match vals.len() {
-                    $( $m => Some(ops::from_array_nm::<N, $m>(vals)), )*
-                    _ => None,
+macro_rules! identity_elem {
+    ($T:ident, $kind:literal) => {
+        impl $T {
+            #[inline]
+            fn make(val: Option<u32>) -> $T {
+                let id = fresh_id();
+                set_live(id);
+                $T {
+                    id,
+                    val: val.unwrap_or(id),
                 }
-            };
-        }
-        go!(0 1 2 3 4 5 6 7 8 9 10 11)
-    }
+            }
 
-    fn eq_other<const N: usize>(
-        buf: &CircularBuffer<N, Self>,
-        m: usize,
-        r: usize,
-        vals: &[u32],
-        ret: &mut String,
-    ) -> bool {
-        if m == N {
-            ops::eq_nm::<N, N, Self>(buf, r, vals, ret);
-            return true;
-        }
-        if N > 5 {
-            return false;
-        }
-        macro_rules! go {
-            ($($m:literal)*) => {
-                match m {
-                    $( $m => { ops::eq_nm::<N, $m, Self>(buf, r, vals, ret); true } )*
-                    _ => false,
+            #[inline]
+            fn compare(&self, other: &Self) -> Ordering {
+                let prev = count_off();
+                if !silent() {
+                    if !is_live(self.id) {
+                        ev_zombie(self.id, "cmp");
+                    }
+                    if !is_live(other.id) {
+                        ev_zombie(other.id, "cmp");
+                    }
+                    ev_cmp(self.id, other.id);
                 }
-            };
+                count_restore(prev);
+                self.val.cmp(&other.val)
+            }
         }
-        go!(0 1 2 3 4 5)
-    }
 
-    fn cmp_other<const N: usize>(
-        buf: &CircularBuffer<N, Self>,
-        m: usize,
-        r: usize,
-        vals: &[u32],
-        ret: &mut String,
-    ) -> bool {
-        if m == N {
-            ops::cmp_nm::<N, N, Self>(
-                buf,
-                r,
-                vals,
-                ret,
-                Some(|a: &CircularBuffer<N, Self>, b: &CircularBuffer<N, Self>| Ord::cmp(a, b)),
-            );
-            return true;
-        }
-        if N > 5 {
-            return false;
-        }
-        macro_rules! go {
-            ($($m:literal)*) => {
-                match m {
-                    $( $m => { ops::cmp_nm::<N, $m, Self>(buf, r, vals, ret, None); true } )*
-                    _ => false,
+        impl Clone for $T {
+            fn clone(&self) -> Self {
+                let prev = count_off();
+                if silent() {
+                    let t = $T::make(Some(self.val));
+                    count_restore(prev);
+                    return t;
                 }
-            };
+                if !is_live(self.id) {
+                    ev_zombie(self.id, "clone");
+                }
+                if tick(F_CLONE) {
+                    panic!("INJECTED:clone");
+                }
+                let t = $T::make(Some(self.val));
+                ev_clone(t.id, self.id);
+                count_restore(prev);
+                t
+            }
         }
-        go!(0 1 2 3 4 5)
-    }
+
+        impl PartialEq for $T {
+            fn eq(&self, other: &Self) -> bool {
+                let prev = count_off();
+                if !silent() {
+                    if !is_live(self.id) {
+                        ev_zombie(self.id, "eq");
+                    }
+                    if !is_live(other.id) {
+                        ev_zombie(other.id, "eq");
+                    }
+                    ev_cmp(self.id, other.id);
+                    if tick(F_EQ) {
+                        panic!("INJECTED:eq");
+                    }
+                }
+                count_restore(prev);
+                self.val == other.val
+            }
+        }
+
+        impl Eq for $T {}
+
+        impl PartialOrd for $T {
+            fn partial_cmp(&self, other: &Self) -> Option<Ordering> {
+                Some(self.compare(other))
+            }
+        }
+
+        impl Ord for $T {
+            fn cmp(&self, other: &Self) -> Ordering {
+                self.compare(other)
+            }
+        }
+
+        impl Hash for $T {
+            fn hash<H: Hasher>(&self, state: &mut H) {
+                let prev = count_off();
+                if !silent() {
+                    if !is_live(self.id) {
+                        ev_zombie(self.id, "hash");
+                    }
+                    ev_hash(self.id);
+                }
+                count_restore(prev);
+                state.write_u32(self.val);
+            }
+        }
+
+        impl fmt::Debug for $T {
+            fn fmt(&self, f: &mut fmt::Formatter<'_>) -> fmt::Result {
+                let prev = count_off();
+                if !silent() {
+                    if !is_live(self.id) {
+                        ev_zombie(self.id, "fmt");
+                    }
+                    ev_fmt(self.id);
+                }
+                let r = write!(f, "T{}:{}", self.id, self.val);
+                count_restore(prev);
+                r
+            }
+        }
+
+        impl Elem for $T {
+            const KIND: u8 = $kind;
+            const HAS_ID: bool = true;
+
+            fn given(val: u32) -> Self {
+                let t = $T::make(Some(val));
+                ev_given(t.id);
+                t
+            }
+            fn produced() -> Self {
+                let t = $T::make(None);
+                ev_given(t.id);
+                t
+            }
+            fn silent(val: u32) -> Self {
+                $T::make(Some(val))
+            }
+            #[inline]
+            unsafe fn raw(p: *const Self) -> (u32, u32) {
+                let q = p as *const u32;
+                (q.read_volatile(), q.add(1).read_volatile())
+            }
+            #[inline]
+            fn bump(&mut self) {
+                self.val = self.val.wrapping_add(1000);
+            }
+            fn on_return(&self) {
+                if !is_live(self.id) {
+                    ev_zombie(self.id, "ret");
+                }
+                set_held(self.id);
+            }
+            unsafe fn write_decoy(p: *mut Self, slot: usize) {
+                std::ptr::write(
+                    p,
+                    $T {
+                        id: 900000u32.wrapping_add(slot as u32),
+                        val: 7,
+                    },
+                );
+            }
+
+            fn from_array<const N: usize>(
+                vals: &[u32],
+            ) -> Option<Result<CircularBuffer<N, Self>, ()>> {
+                ops::from_array_table::<N, Self>(vals)
+            }
+            fn eq_other<const N: usize>(
+                buf: &CircularBuffer<N, Self>,
+                m: usize,
+                r: usize,
+                vals: &[u32],
+                ret: &mut String,
+            ) -> bool {
+                ops::eq_table::<N, Self>(buf, m, r, vals, ret)
+            }
+            fn cmp_other<const N: usize>(
+                buf: &CircularBuffer<N, Self>,
+                m: usize,
+                r: usize,
+                vals: &[u32],
+                ret: &mut String,
+            ) -> bool {
+                ops::cmp_table::<N, Self>(buf, m, r, vals, ret)
+            }
+        }
+    };
 }
+
+identity_elem!(Tracked, b't');
+identity_elem!(Plain, b'p');
 
 // ---------------------------------------------------------------------------------------------
 // u8
@@ -511,6 +483,40 @@ impl Elem for Zst {
     #[inline]
     fn bump(&mut self) {}
     unsafe fn write_decoy(_p: *mut Self, _slot: usize) {}
+}
+
+// ---------------------------------------------------------------------------------------------
+// () (u): no identity, no destructor, zero-sized, no events
+// ---------------------------------------------------------------------------------------------
+
+impl Elem for () {
+    const KIND: u8 = b'u';
+
+    fn given(_val: u32) -> Self {}
+    fn produced() -> Self {}
+    fn silent(_val: u32) -> Self {}
+    #[inline]
+    unsafe fn raw(_p: *const Self) -> (u32, u32) {
+        (0, 0)
+    }
+    #[inline]
+    fn bump(&mut self) {}
+    unsafe fn write_decoy(_p: *mut Self, _slot: usize) {}
+    fn fix_debug(s: &str, out: &mut String) {
+        // `[(), ()]` -> `[T0:0,T0:0]`
+        let n = s.matches("()").count();
+        out.push('[');
+        for i in 0..n {
+            if i > 0 {
+                out.push(',');
+            }
+            out.push_str("T0:0");
+        }
+        out.push(']');
+    }
+    fn full_buffer<const N: usize>() -> Option<CircularBuffer<N, Self>> {
+        Some(CircularBuffer::<N, ()>::from([(); N]))
+    }
 }
 
 // ---------------------------------------------------------------------------------------------
